@@ -45,6 +45,7 @@ type RStmt struct {
 	Kind   string `json:"kind"`           // bind | query | querybool | queryint64 | querygeneric | formvalue | formfile | formjson | decoy
 	Name   string `json:"name,omitempty"` // parameter / form field name (a string constant expression)
 	Type   string `json:"type,omitempty"` // Go type text (bind target, formjson destination, generic type argument)
+	ViaPkg bool   `json:"via_pkg,omitempty"` // querygeneric: the helper of the imported package is called (inner.QueryParamInt[T])
 	Form   string `json:"form"`           // define | assign | blank | iferr | pair (two query params in one assignment)
 	Ptr    bool   `json:"ptr,omitempty"`  // bind through a pointer variable instead of &value
 	Method bool   `json:"method,omitempty"`
@@ -239,6 +240,10 @@ func GenRoutes(t *rapid.T, o *RouteOpts) *RouteSpec {
 				st.Type = "IdItem"
 				if st.Form == "blank" {
 					st.Form = "define"
+				}
+				if rapid.IntRange(0, 2).Draw(t, "genericViaPkg") == 0 {
+					st.ViaPkg = true // inner.QueryParamInt[IdItem](c, "name")
+					o.class("routes:generic_helper_through_package_qualifier")
 				}
 			case "formvalue":
 				st.Name = usedParam(usedP, "fName")
@@ -540,13 +545,17 @@ func (rs *RouteSpec) renderBody(h RHandler) string {
 			}
 		case "querygeneric":
 			v := nv()
+			fn := "QueryParamInt"
+			if st.ViaPkg {
+				fn = "inner.QueryParamInt"
+			}
 			switch st.Form {
 			case "iferr":
-				sb.WriteString(fmt.Sprintf("\t%s, err2 := QueryParamInt[%s](%s, %q)\n\tif err2 != nil {\n\t\treturn err2\n\t}\n", v, st.Type, c, st.Name))
+				sb.WriteString(fmt.Sprintf("\t%s, err2 := %s[%s](%s, %q)\n\tif err2 != nil {\n\t\treturn err2\n\t}\n", v, fn, st.Type, c, st.Name))
 			case "assign":
-				sb.WriteString(fmt.Sprintf("\tvar %s %s\n\t%s, %s = QueryParamInt[%s](%s, %q)\n", v, st.Type, v, declErr(), st.Type, c, st.Name))
+				sb.WriteString(fmt.Sprintf("\tvar %s %s\n\t%s, %s = %s[%s](%s, %q)\n", v, st.Type, v, declErr(), fn, st.Type, c, st.Name))
 			default:
-				sb.WriteString(fmt.Sprintf("\t%s, _ := QueryParamInt[%s](%s, %q)\n", v, st.Type, c, st.Name))
+				sb.WriteString(fmt.Sprintf("\t%s, _ := %s[%s](%s, %q)\n", v, fn, st.Type, c, st.Name))
 			}
 			used = append(used, v)
 		case "formfile":
@@ -626,7 +635,7 @@ func (Echo) Use(string)                          {}
 	// inner package
 	var in strings.Builder
 	in.WriteString("// Package inner holds handlers defined in an imported package.\npackage inner\n\nimport (\n\t\"" + echoPath + "\"\n)\n\n")
-	in.WriteString("const Url = \"/inner_url/\"\n\ntype Payload struct {\n\tCode int\n\tText string\n}\n\ntype Controller struct{}\n\nfunc helperUse(...any) {}\nfunc helperLog(string)  {}\n\nvar _ = helperLog\nvar _ = helperUse\n\n")
+	in.WriteString("const Url = \"/inner_url/\"\n\ntype Payload struct {\n\tCode int\n\tText string\n}\n\ntype Controller struct{}\n\nfunc QueryParamInt[T ~int64](echo.Context, string) (T, error) { return 0, nil }\n\nfunc helperUse(...any) {}\nfunc helperLog(string)  {}\n\nvar _ = helperLog\nvar _ = helperUse\n\n")
 	for _, h := range rs.Handlers {
 		if !h.Inner {
 			continue
